@@ -5,7 +5,7 @@ Written against the normal form (VIEW = 'norm'): helpers that do not exist on th
 about loops, the items they visit and what is inserted / pushed for an item, not about adaptors or closures."""
 from .common import *
 from .feas import (check_feasibility_rule, origins, PathEval, const_operand, absent_inserts, error_propagates, result_kind,
-                   canon, whole, is_const, item_calls, enum_tests,
+                   canon, whole, is_const, item_calls, enum_tests, generic_param,
                    dominates_ok, dominates_sem, must_pass_sem, loop_must2 as loop_must, returned_struct, field_is_none, with_renormalised)
 from .C05 import inherited_from
 
@@ -265,7 +265,10 @@ def per_state_closure(ctx, parent, mapcall, ty):
     K, caps = closure_of(ctx, parent, mapcall.args[1]) if len(mapcall.args) == 2 else (None, [])
     if K is None: return None, None, []
     for c in K.calls:
-        if c.item != 'evaluate' or not (c.trait or '').endswith('Evaluate') or not re.search(re.escape(ty) + '$', c.self_ty or ''): continue
+        if c.item != 'evaluate' or not (c.trait or '').endswith('Evaluate'): continue
+        # `<ty as Evaluate>::evaluate`, or -- inside a generic helper `fn h<E: Evaluate>(f: &E, ..)` that was inlined -- `<E as Evaluate>::evaluate`:
+        # the callee then is decided by the receiver, which below has to be the parent's own self (of type ty)
+        if not (re.search(re.escape(ty) + '$', c.self_ty or '') or generic_param(c.self_ty or '')): continue
         fs, root, calls = T.access_path(K, c.args[0])
         if root != 1 or len(fs) != 1 or not fs[0][1].isdigit() or int(fs[0][1]) >= len(caps): continue
         cfs, croot, ccalls = T.access_path(parent, caps[int(fs[0][1])])
@@ -616,6 +619,7 @@ def values_get_rules(ctx, R, b):
          (a) for e in entries { if MEMBER(e) { return Some(e.value) } } None
          (b) entries.iter().find(|e| MEMBER(e)).map(|e| e.value)                      found = Some(e) / None, mapped to .value
          (c) let mut found = None; for e in entries { if found.is_none() && MEMBER(e) { found = Some(e.value) } } found      (or with `break`)
+         (d) self.iter().find(|(id, _)| **id == id0).map(|(_, v)| *v)                   the type's own (id, &value) pairs, first pair with that id
        MEMBER in any idiom of membership_tests()."""
     okk = False; nones = [e for e, k, rst in b.ret_assignments() if k == 'none']
     lo_all = loops_over(ctx, b, 'v1::SampledValues', 'entries')
@@ -668,6 +672,40 @@ def values_get_rules(ctx, R, b):
                     kept = kept and (leaves or guarded)
                 if kept:
                     okk = True; nones += nn
+    # (d) the type's own pair iterator reused: `self.iter().find(|(id, _)| **id == sample_id).map(|(_, v)| *v)` -- iter() yields (id, &value of the entry listing id)
+    #     in storage order (C06.compress/iter/pairs), so the first pair with that id carries the value of the first entry containing it
+    pair_loops = []
+    for l in T.for_loops(b):
+        its = ctx.S.slice_operand(b, l[0].args[0])
+        ic = [c for c in its.call_objs if c.item == 'iter' and c.path.endswith('SampledValues>::iter') and T.access_path(b, c.args[0])[1] == 1]
+        if ic and not restricting(ctx, b, l): pair_loops.append(l)
+    for lo in pair_loops:
+        item = lo[0].dst['l']; outside = {x for x in b.live if x not in lo[4]}
+        for bi, st in b.stmts():
+            rv = st['rv']
+            if bi not in lo[4] or rv['k'] != 'bin' or rv['op'] != 'Eq' or st['dst']['p']: continue
+            sides = [(canon(b, o) if o['k'] in ('copy', 'move') else (None, ())) for o in rv['ops']]
+            exprs = [T.strip_wrappers(T.expr(b, o)) for o in rv['ops']]
+            is_id = lambda sd: sd[0] == item and bool(sd[1]) and sd[1][-1] == ('tuple', '0') and all(T.WRAPPER_OWNER.search(a) for a, f in sd[1][:-1])
+            if not ((is_id(sides[0]) and exprs[1] == ('place', 2, [])) or (is_id(sides[1]) and exprs[0] == ('place', 2, []))): continue
+            for sb, neg in T.bool_flow(b, st['dst']['l']):
+                tt, ft = T.switch_sides(b, sb, neg)
+                if tt is None or tt == ft: continue
+                hit = b.edge_region(sb, tt)
+                for e, k, rst in b.ret_assignments():
+                    if k != 'callval' or not re.search(r'Option::<.*>::map::<', rst['r'] or rst['f']) or len(rst['args']) != 2: continue
+                    found = rst['args'][0]
+                    cb, caps = closure_of(ctx, b, rst['args'][1])
+                    if cb is None or found['k'] not in ('copy', 'move') or found['pl']['p']: continue
+                    rets = [T.expr(cb, rs['rv']['ops'][0]) for e2, k2, rs in cb.ret_assignments() if k2 == 'val' and rs['rv']['k'] == 'use']
+                    if not rets or len(rets) != len(cb.ret_assignments()) or not all(r[0] == 'place' and r[1] == 2 and [f for a, f in r[2]] == ['1'] for r in rets): continue
+                    defs = b.defs_of(found['pl']['l'])
+                    somes = [(bb, d) for kk, bb, d in defs if kk == 'stmt' and d['rv']['k'] == 'agg' and d['rv']['adt'].endswith('Option::Some')]
+                    nn = [bb for kk, bb, d in defs if kk == 'stmt' and d['rv']['k'] == 'agg' and d['rv']['adt'].endswith('Option::None')]
+                    if not somes or len(somes) + len(nn) != len(defs): continue
+                    kept = all(bb in hit and canon(b, d['rv']['ops'][0])[0] == item and all(T.WRAPPER_OWNER.search(a) for a, f in canon(b, d['rv']['ops'][0])[1])
+                               and lo[1] not in b.reach([x for x in b.succ(bb) if x in lo[4]], stop=outside) for bb, d in somes)
+                    if kept: okk = True; nones += nn
     ctx.check(okk, R + '/get/value-of-matching-entry', 'T-BRANCHFX', b.name, 'get does not return the value of the entry whose ids contain the sample id', b.site())
     ctx.check(bool(nones), R + '/get/none-when-absent', 'T-BRANCHFX', b.name, 'no None result for an unknown sample id', b.site())
     ctx.check(len(lo_all) >= 1 and not any(restricting(ctx, b, l) for l in lo_all), R + '/get/all-entries', 'T-LOOPMUST', b.name, 'no loop over all entries', b.site())
@@ -826,7 +864,9 @@ def transpose_rules(ctx, R, b):
 # dependency map (C04.use); those rule families are re-decided under this property
 # ... and `SampleSet::get(i) == evaluate(state_i)` holds only if Instance::evaluate reports the state the way evaluate_samples builds it
 # (substituted / dependent / default values: C05.state -- seed C06-10 changes the default value in evaluate only)
-RELIES_ON = {'C04': ['C04.deps', 'C04.use'], 'C05': ['C05.state']}
+# ... and the used ids a kernel reports must not depend on the state (evaluate_samples stores their union over all samples, get() hands that union to every
+# extracted sample): the C01 kernel families, as under C05 (seed C06-11: Polynomial::evaluate leaves a monomial at its first zero factor)
+RELIES_ON = {'C01': ['C01.lookup', 'C01.fields', 'C01.every-term', 'C01.linear-none', 'C01.oneof', 'C01.used'], 'C04': ['C04.deps', 'C04.use'], 'C05': ['C05.state']}
 
 
 def check(ctx):
